@@ -99,6 +99,17 @@ def h_ctor(vc):
         vc.ensure(label + " does not raise", out.returned)
         if out.returned:
             vc.ensure(label + " components as given", SP.veq(SP.vec(out.value), (x, y, z)))
+    # the sequence forms copy their argument: changing the caller's list afterwards, or one of two objects built from it, changes nothing else
+    t = vc.real("t")
+    for label, ctor in (("Vector(list)", g.Vector), ("Point(list)", g.Point)):
+        lst = [x, y, z]
+        o1 = ctor(lst)
+        o2 = ctor(lst)
+        lst[0] = t
+        vc.ensure(label + ": changing the caller's list afterwards does not change the object", SP.veq(SP.vec(o1), (x, y, z)))
+        o1[1] = t
+        vc.ensure(label + ": a coordinate assigned to one object changes neither the other object built from the same list nor the list",
+                  And(SP.veq(SP.vec(o2), (x, y, z)), SP.eq(lst[1], y), SP.eq(lst[2], z)))
     p1, p2 = C.P(vc, "p1"), C.P(vc, "p2")
     b1, b2 = vc.snapshot(p1), vc.snapshot(p2)
     out = vc.call(g.Vector, p1, p2)
@@ -519,6 +530,24 @@ def bounded_numeric(seed):
                     okA = False
                 if not okA and len(failures) < 5:
                     failures.append(dict(case=dict(type=name, v=[str(c) for c in fv], index=idx), what="assign:after v[%d] = x the object does not behave like a fresh object with that coordinate (==, hash, length, angle, parallel, orthogonal, set)" % idx, **{"class": "assign:" + name}))
+    # small and near-pi angles: |a||b| sin(angle) = |a x b| (angle against atan2(|a x b|, a.b), which is accurate there)
+    for name, T in (("int", int), ("float", float), ("Fraction", Fraction)):
+        for k_ in (1024, 8192, 131072, 500000):
+            for base, off in (((1, 0, 0), (0, 1, 0)), ((2, 1, 2), (1, 0, -1)), ((0, -3, 4), (5, 0, 0))):
+                for sign in (1, -1):
+                    a_ = Vector(*[T(c) for c in base])
+                    b_ = Vector(*[T(sign * k_ * c + o) for c, o in zip(base, off)])
+                    ev += 1
+                    classes.add("small-angle:%s" % name)
+                    try:
+                        ang = a_.angle(b_)
+                    except Exception as e:
+                        ang = None
+                    fa, fb = [float(c) for c in a_], [float(c) for c in b_]
+                    cr = (fa[1] * fb[2] - fa[2] * fb[1], fa[2] * fb[0] - fa[0] * fb[2], fa[0] * fb[1] - fa[1] * fb[0])
+                    ref = math.atan2(math.sqrt(sum(c * c for c in cr)), sum(p_ * q_ for p_, q_ in zip(fa, fb)))
+                    if (ang is None or abs(ang - ref) > 1e-8) and len(failures) < 5:
+                        failures.append(dict(case=dict(type=name, a=[str(c) for c in a_], b=[str(c) for c in b_]), what="small-angle:angle %r, but atan2(|a x b|, a.b) = %r" % (ang, ref), **{"class": "small-angle:" + name}))
     return dict(evaluations=ev, classes=sorted(classes), failures=failures, samples=samples)
 
 
